@@ -61,7 +61,9 @@ RULE = ("Histories of 10-30 operations (seeded call / identically-seeded generat
         "deterministic call) over a pool of 1-3 (entry, parameters) pairs and "
         "1-3 seeds in [0, 2^32-1]; entries grouped in sub-checks: random generators, CP family, constrained CP, Tucker "
         "family, PARAFAC2/TR-ALS/TR-ALS-sampled/TT-cross, randomized SVD + sampling, regressors, deterministic "
-        "functions; tensors of order 2-3, sides 2-4, rank 1-3, 1-3 iterations. Oracle: reference model (memo of "
+        "functions; tensors of order 2-3, sides 2-4, rank 1-3, 1-3 iterations; in the svd/sampling, Tucker, PARAFAC2/TR/TT and "
+        "randomized-svd CP groups the data dtype (float64 / float32) is part of the key and pools contain same-shape twins. "
+        " Oracle: reference model (memo of "
         "frozen first results + shadow of the global generator) checked after every step, bitwise comparison. "
         "Non-trivial history: some key is called at least twice with a different global RNG state at the two calls; "
         "distinct = distinct case hash.")
@@ -73,9 +75,27 @@ SEED_MAX = 2 ** 32 - 1
 LINALG = np.linalg.LinAlgError
 
 
+_DTYPE = ["float64"]          # data dtype of the entry being executed (params["dtype"], see _dtype_of)
+DTYPE_GROUPS = ("svd_sampling", "tucker", "parafac2_tr_ttcross", "cp_family_randomized_svd")
+
+
+class _dtype_of:
+    """context: the data built by _x() gets the dtype recorded in the pool entry's parameters"""
+    def __init__(self, params):
+        self.dt = params.get("dtype", "float64")
+
+    def __enter__(self):
+        self.old = _DTYPE[0]
+        _DTYPE[0] = self.dt
+
+    def __exit__(self, *a):
+        _DTYPE[0] = self.old
+
+
 def _x(shape, seed, nonneg=False):
     a = np.random.RandomState(int(seed)).standard_normal(tuple(shape))
-    return np.abs(a) + 0.05 if nonneg else a
+    a = np.abs(a) + 0.05 if nonneg else a
+    return a.astype(_DTYPE[0])
 
 
 # ----------------------------------------------------------------------------
@@ -589,7 +609,16 @@ def _history(draw, group):
     pool = []
     for _ in range(draw(st.integers(1, 3))):
         name = draw(st.sampled_from(names))
-        pool.append({"entry": name, "params": draw(ENTRIES[name][0])})
+        params = draw(ENTRIES[name][0])
+        if group in DTYPE_GROUPS:
+            # the data dtype is part of the key; a *twin* (same entry, same shapes, other dtype) lets a history
+            # interleave float32 and float64 calls that share a seed (seeded change C16-r3m2)
+            params = dict(params, dtype=draw(st.sampled_from(["float64", "float32"])))
+            pool.append({"entry": name, "params": params})
+            if len(pool) < 4 and draw(st.integers(0, 2)) > 0:
+                pool.append({"entry": name, "params": dict(params, dtype="float32" if params["dtype"] == "float64" else "float64")})
+        else:
+            pool.append({"entry": name, "params": params})
     seeds = draw(st.lists(st.one_of(st.integers(0, 20), st.integers(0, SEED_MAX), st.just(SEED_MAX)), min_size=1, max_size=3))
     pi = st.integers(0, len(pool) - 1)
     si = st.integers(0, len(seeds) - 1)
@@ -621,7 +650,7 @@ def _rstate(rs):
 def _call(name, params, rs):
     """frozen result; a LinAlgError raised by the library counts as a result"""
     try:
-        with warnings.catch_warnings():
+        with warnings.catch_warnings(), _dtype_of(params):
             warnings.simplefilter("ignore")
             res = ENTRIES[name][1](params, rs)
     except LINALG:
@@ -635,7 +664,7 @@ def _call(name, params, rs):
 
 def _call_fit(name, est, params):
     try:
-        with warnings.catch_warnings():
+        with warnings.catch_warnings(), _dtype_of(params):
             warnings.simplefilter("ignore")
             res = OBJECTS[name][1](est, params)
     except LINALG:
@@ -687,7 +716,7 @@ def _interpret(case):
                 if name in OBJECTS:
                     okey = (op[1], op[2])
                     if okey not in objects:
-                        with warnings.catch_warnings():
+                        with warnings.catch_warnings(), _dtype_of(params):
                             warnings.simplefilter("ignore")
                             objects[okey] = OBJECTS[name][0](params, seed)
                         n_objfits[okey] = 0
@@ -737,6 +766,7 @@ def _interpret(case):
     labels = [f"steps={10 * (len(case['ops']) // 10)}+", f"perturbed_repeat={perturbed_repeat}", f"linalg_results={min(n_exc, 3)}"]
     labels += [f"entry={pe['entry']}" for pe in {json.dumps(x, sort_keys=True): x for x in pool}.values()]
     labels += [f"op={k}" for k in sorted(kinds)]
+    labels.append(f"dtypes={'+'.join(sorted({pe['params'].get('dtype', 'float64') for pe in pool}))}")
     labels.append(f"object_refits={min(3, max([v - 1 for v in n_objfits.values()] or [0]))}")
     return {"nontrivial": perturbed_repeat, "labels": labels}
 
